@@ -537,6 +537,18 @@ impl<'a, 'b, 'ast> Visit<'ast> for Collector<'a, 'b> {
     }
 
     fn visit_path(&mut self, p: &'ast syn::Path) {
+        // a key with `::` replaces the whole path (`Self::from` -> `Self::from_pair`: picks one overload of an overloaded name)
+        let full: String = p.segments.iter().map(|s| s.ident.to_string()).collect::<Vec<_>>().join("::");
+        if full.contains("::") {
+            for (k, v) in &self.rw.subst {
+                if *k == full {
+                    let r = p.span().byte_range();
+                    self.edits.push((r.start, r.end, v.clone()));
+                    self.rw.count("R6");
+                    return;
+                }
+            }
+        }
         if let Some(first) = p.segments.first() {
             let id = first.ident.to_string();
             for (k, v) in &self.rw.subst {
